@@ -144,7 +144,12 @@ def check_assembly(prog, rep):
                 else:
                     roles.add("?" + base)
             unknown = [r for r in roles if r.startswith("?")]
-            if unknown:
+            wholepop = [r for r in unknown if r.startswith("?res.pop") or r.startswith("?res.history") or r.startswith("?res.algorithm.pop")]
+            if wholepop:
+                rep.violate("R1-assembly", construct, "%s is taken from %s: the whole final population (dominated and infeasible members included), not the optimiser's "
+                            "result set res.%s" % (k, wholepop[0][1:], slot), where(f, sol[0]), "res.%s" % slot, wholepop[0][1:])
+                good = False
+            elif unknown:
                 rep.unrec("R1-assembly", construct, "%s built from %s (not modelled)" % (k, ", ".join(sorted(unknown))[:80]))
                 good = False
             elif roles != {k}:
